@@ -1,7 +1,7 @@
 use vstd::prelude::*;
 use crate::error::*;
 use crate::shims::scursor::ReadCursor;
-use crate::spec::be16;
+use crate::be16;
 
 //@item rodbus/src/types.rs | UnitId | structeq
 //@item rodbus/src/types.rs | AddressRange
